@@ -109,6 +109,41 @@ def isIdentChar (c : Char) : Bool := c.isAlphanum || c == '_'
 `name.attr…` and `name(args)` -/
 def headIdent (e : Str) : Str := e.takeWhile isIdentChar
 
+/-! ### how the arguments of a filter call keep their grouping
+
+The entries of a filter list are not copied from the template: `ArgumentList` parses them and `ExpressionGenerator`
+(`SourceGenerator`, mako/_ast_util.py) re-emits them from the AST.  The full model of that printer belongs to
+property C19 (`MakoModel/PyExpr`); here only the mechanism that keeps a sub-expression one group is recorded,
+over the regenerated facts: an operator node parenthesises its own output, a conditional expression / lambda is
+parenthesised by `visit_operand`, and every visitor with operand slots writes them through `visit_operand`. -/
+
+inductive ArgKind where
+  | atom | binOp | boolOp | compare | unaryOp | ifExp | lambda
+deriving Repr, DecidableEq
+
+def ArgKind.all : List ArgKind := [.atom, .binOp, .boolOp, .compare, .unaryOp, .ifExp, .lambda]
+
+/-- the class name of the `ast` node / the suffix of its `visit_*` method -/
+def ArgKind.name : ArgKind → Str
+  | .atom => ['N', 'a', 'm', 'e']
+  | .binOp => ['B', 'i', 'n', 'O', 'p']
+  | .boolOp => ['B', 'o', 'o', 'l', 'O', 'p']
+  | .compare => ['C', 'o', 'm', 'p', 'a', 'r', 'e']
+  | .unaryOp => ['U', 'n', 'a', 'r', 'y', 'O', 'p']
+  | .ifExp => ['I', 'f', 'E', 'x', 'p']
+  | .lambda => ['L', 'a', 'm', 'b', 'd', 'a']
+
+/-- is a node of kind `k`, written in an operand slot (`visit_operand`), one group – an atom, a text its own
+visitor parenthesises, or a text `visit_operand` parenthesises? -/
+def groupedInOperandSlot (k : ArgKind) : Bool :=
+  k == .atom || selfParenthesisingVisitors.contains k.name || operandWrappedKinds.contains k.name
+
+/-- the visitors that have operand slots -/
+def operandParents : List Str :=
+  [ArgKind.binOp.name, ArgKind.boolOp.name, ArgKind.compare.name, ArgKind.unaryOp.name, ArgKind.ifExp.name,
+   ['A', 't', 't', 'r', 'i', 'b', 'u', 't', 'e'], ['S', 'u', 'b', 's', 'c', 'r', 'i', 'p', 't'], ['C', 'a', 'l', 'l'],
+   ['S', 't', 'a', 'r', 'r', 'e', 'd']]
+
 /-- the list the `for` loop of `create_filter_callable` iterates over -/
 def effectiveArgs (args : List Str) (isExpr : Bool) (cfg : Cfg) : List Str :=
   if args.contains nName then args
